@@ -256,3 +256,8 @@ func (ts *testClient) ClientAddr() string {
 func (ts *testClient) ServerNow() time.Time {
 	return time.Now()
 }
+
+func (ts *testClient) WatchConnection() (stop func()) {
+	// no socket to watch
+	return func() {}
+}
